@@ -304,7 +304,8 @@ struct Runner {
     vnacal_t *vcp = nullptr; vnacal_new_t *vnp = nullptr;
     std::vector<int> to_delete;
     C ab_scale = C(1, 0);              // common factor applied to a and b of every standard (C17 T4)
-    Runner(pbt::Ctx &c_, Scenario &s) : c(c_), sc(s) {}
+    pbt::Ctx *rnd;                     // source of the random 'a' matrices (default: the case's own tape)
+    Runner(pbt::Ctx &c_, Scenario &s) : c(c_), sc(s), rnd(&c_) {}
     ~Runner() { if (vnp) vnacal_new_free(vnp); if (vcp) vnacal_free(vcp); }
 
     void create() {
@@ -343,10 +344,10 @@ struct Runner {
             for (int i = 0; i < br; i++) for (int j = 0; j < bc; j++) Ms(i, j) = M(rows[i], cols[j]) * (st.noise.empty() ? C(1, 0) : C(1, 0) + st.noise[f](rows[i], cols[j]));
             if (!sc.ab) { for (int i = 0; i < br; i++) for (int j = 0; j < bc; j++) B.set(i, j, f, Ms(i, j)); continue; }
             if (colsys) {
-                for (int j = 0; j < bc; j++) { C a = (st.Afix.empty() ? polar(0.5L + c.unit(), 2 * M_PIl * c.unit()) : st.Afix[f](0, cols[j])) * ab_scale; A.set(0, j, f, a); for (int i = 0; i < br; i++) B.set(i, j, f, Ms(i, j) * a); }
+                for (int j = 0; j < bc; j++) { C a = (st.Afix.empty() ? polar(0.5L + rnd->unit(), 2 * M_PIl * rnd->unit()) : st.Afix[f](0, cols[j])) * ab_scale; A.set(0, j, f, a); for (int i = 0; i < br; i++) B.set(i, j, f, Ms(i, j) * a); }
             } else {
                 Mat Am(bc, bc);
-                for (int i = 0; i < bc; i++) for (int j = 0; j < bc; j++) Am(i, j) = (st.Afix.empty() ? (i == j ? polar(0.5L + c.unit(), 2 * M_PIl * c.unit()) : rnd_disk(c, 0, 0.15L)) : st.Afix[f](cols[i], cols[j])) * ab_scale;
+                for (int i = 0; i < bc; i++) for (int j = 0; j < bc; j++) Am(i, j) = (st.Afix.empty() ? (i == j ? polar(0.5L + rnd->unit(), 2 * M_PIl * rnd->unit()) : rnd_disk(*rnd, 0, 0.15L)) : st.Afix[f](cols[i], cols[j])) * ab_scale;
                 Mat Bm = vm::mul(Ms, Am);
                 for (int i = 0; i < bc; i++) for (int j = 0; j < bc; j++) A.set(i, j, f, Am(i, j));
                 for (int i = 0; i < br; i++) for (int j = 0; j < bc; j++) B.set(i, j, f, Bm(i, j));
@@ -399,10 +400,10 @@ struct Runner {
                 else { M2(0, 0) = Mf(0, 0); M2(1, 0) = Mf(1, 0); M2(0, 1) = Mr(1, 0); M2(1, 1) = Mr(0, 0); }
             }
             if (!sc.ab) { for (int i = 0; i < P; i++) for (int j = 0; j < P; j++) B.set(i, j, f, M2(i, j)); continue; }
-            if (colsys) { for (int j = 0; j < P; j++) { C a = polar(0.5L + c.unit(), 2 * M_PIl * c.unit()); A.set(0, j, f, a); for (int i = 0; i < P; i++) B.set(i, j, f, M2(i, j) * a); } }
+            if (colsys) { for (int j = 0; j < P; j++) { C a = polar(0.5L + rnd->unit(), 2 * M_PIl * rnd->unit()); A.set(0, j, f, a); for (int i = 0; i < P; i++) B.set(i, j, f, M2(i, j) * a); } }
             else {
                 Mat Am(P, P);
-                for (int i = 0; i < P; i++) for (int j = 0; j < P; j++) Am(i, j) = i == j ? polar(0.5L + c.unit(), 2 * M_PIl * c.unit()) : rnd_disk(c, 0, 0.15L);
+                for (int i = 0; i < P; i++) for (int j = 0; j < P; j++) Am(i, j) = i == j ? polar(0.5L + rnd->unit(), 2 * M_PIl * rnd->unit()) : rnd_disk(*rnd, 0, 0.15L);
                 Mat Bm = vm::mul(M2, Am);
                 for (int i = 0; i < P; i++) for (int j = 0; j < P; j++) { A.set(i, j, f, Am(i, j)); B.set(i, j, f, Bm(i, j)); }
             }
